@@ -898,6 +898,9 @@ def _nonzero_guarded(f, node, div):
                     # the division sits in the else branch of a test that is true exactly when the divisor is zero
                     if not in_body and zero_test(t):
                         return True
+                    # ... or in the body of the negation of such a test (`if start != end: bits %= end - start`)
+                    if in_body and any(zero_test(G.canon_truth(ast.UnaryOp(op=ast.Not(), operand=c))) for c in conj):
+                        return True
                     return scan(s.body if in_body else s.orelse)
             elif isinstance(s, (ast.For, ast.While, ast.With, ast.Try)):
                 if any(y is node for y in ast.walk(s)):
